@@ -26,7 +26,7 @@ CORR = os.path.join(BUILD, 'corr')
 REPLAY = os.path.join(BUILD, 'replay')
 LOGS = os.path.join(BUILD, 'logs')
 EVID = os.path.join(VERIF, 'evidence')
-NCPU = 16
+NCPU = int(os.environ.get('VERIF_NCPU', '16'))
 
 for d in (BUILD, CORR, REPLAY, LOGS, EVID):
     os.makedirs(d, exist_ok=True)
